@@ -261,7 +261,7 @@ def challenges_unchanged(f):
     transcript after verify_batch. detail: n, x, m, cap, datum, rounds"""
     d = f.detail
     n, x, m, cap, datum, rounds = d['n'], d['x'], d['m'], d['cap'], d['datum'], d['rounds']
-    kind = datum.split(' ')[0].split('_')[0]
+    kind = 'promise-position' if datum == 'promise-position' else datum.split(' ')[0].split('_')[0]
     idx = int(datum.replace('_', ' ').split(' ')[-1]) if datum[-1].isdigit() else 0
     alt = {}
     if kind == 'transcript':
@@ -284,15 +284,37 @@ def challenges_unchanged(f):
             e = x + 5 + 2 * idx + (1 if kind == 'R' else 0)
         alt = {'tamper': {'op': 'point_add_delta_basis', 'elem': e, 'basis': {'b': 'h'}}}
     found = []
-    for (mm, cc, seeded) in ((1, 1, True), (m, cap, False)):
-        if mm == 1 and kind in ('commitment', 'promise') and idx > 0:
-            continue
-        if mm == 1 and kind in ('L', 'R') and idx >= (n).bit_length() - 1:
-            continue
-        base = {'m': mm, 'cap': cc, 'seeded': seeded, 'promises': ['3' if n >= 2 else None] * mm}
+    attempts = []
+    if kind == 'promise-position':
+        mm = max(m, 2)
+        a = ['1'] + [None] * (mm - 1)
+        va = {'m': mm, 'cap': max(cap, mm), 'promises': a}
+        # the SAME proof looked at under the statement with the promise moved to the next position
+        attempts.append((n, va, dict(va, tamper_statement=[{'op': 'promise', 'j': 0, 'value': None}, {'op': 'promise', 'j': 1, 'value': '1'}])))
+    elif kind == 'promise':
+        for (mm, cc, seeded) in ((1, 1, True), (m, cap, False)):
+            if mm == 1 and idx > 0:
+                continue
+            base = {'m': mm, 'cap': cc, 'seeded': seeded, 'promises': [('3' if (n >= 2 and j == idx) else None) for j in range(mm)]}
+            attempts.append((n, base, dict(base, **alt)))
+            # boundary pairs: the two largest u64 values, zero versus absent is NOT a change
+            hi = (1 << 64) - 1
+            b1 = dict(base, promises=[(str(hi - 1) if j == idx else None) for j in range(mm)], values=[str(hi)] * mm)
+            b2 = dict(base, promises=[(str(hi) if j == idx else None) for j in range(mm)], values=[str(hi)] * mm)
+            attempts.append((64, b1, dict(b1, tamper_statement={'op': 'promise', 'j': idx, 'value': str(hi)})))
+            _ = b2
+    else:
+        for (mm, cc, seeded) in ((1, 1, True), (m, cap, False)):
+            if mm == 1 and kind == 'commitment' and idx > 0:
+                continue
+            if mm == 1 and kind in ('L', 'R') and idx >= (n).bit_length() - 1:
+                continue
+            base = {'m': mm, 'cap': cc, 'seeded': seeded, 'promises': ['3' if n >= 2 else None] * mm}
+            attempts.append((n, base, dict(base, **alt)))
+    for (nn, va, vb) in attempts:
         obs = []
-        for variant in (base, dict(base, **alt)):
-            o = run_replay({'scenario': 'batch', 'n': n, 'x': x, 'members': [variant], 'actions': ['RecoverOnly']}, 1)
+        for variant in (va, vb):
+            o = run_replay({'scenario': 'batch', 'n': nn, 'x': x, 'members': [variant], 'actions': ['RecoverOnly']}, 1)
             if 'crash' in o or not o.get('verify'):
                 obs.append(None)
                 continue
@@ -300,13 +322,64 @@ def challenges_unchanged(f):
             obs.append((v.get('masks'), v.get('logs_after')) if v['result'] == 'ok' else ('refused', v['result']))
         if obs[0] is None or obs[1] is None or obs[0][0] == 'refused' or obs[1][0] == 'refused':
             continue
-        if seeded and obs[0][0] == obs[1][0]:
-            found.append({'datum': datum, 'observable': 'RecoverOnly mask identical although the datum changed', 'mask': obs[0][0]})
+        if va.get('seeded') and obs[0][0] == obs[1][0]:
+            found.append({'datum': datum, 'observable': 'RecoverOnly mask identical although the datum changed', 'mask': obs[0][0], 'a': va, 'b': vb, 'n': nn})
         if obs[0][1] == obs[1][1]:
-            found.append({'datum': datum, 'observable': 'caller transcript state after verification identical although the datum changed'})
+            found.append({'datum': datum, 'observable': 'caller transcript state after verification identical although the datum changed', 'a': va, 'b': vb, 'n': nn})
         if found:
             break
     return (len(found) > 0), found[:2]
+
+
+def _proof_elems(p):
+    h = bytes.fromhex(p['proof']['hex'])
+    return h[0], [h[1 + 32 * i:33 + 32 * i] for i in range((len(h) - 1) // 32)]
+
+
+def nonces_repeat(f):
+    """C13: with equal blinding factors in every component, the response scalars d1[k] coincide (the per-component nonces were not independent)"""
+    c = f.cfg
+    n, x = c['n'], max(c.get('x', 1), 2)
+    m0 = c['members'][0]
+    mem = {'m': m0.get('m', 1), 'cap': m0.get('cap', m0.get('m', 1)), 'seeded': m0.get('seeded', False), 'equal_blindings': True}
+    bad = []
+    for seed in (1, 2):
+        o = run_replay({'scenario': 'batch', 'n': n, 'x': x, 'members': [mem], 'prove_only': True}, seed)
+        if 'crash' in o or o['prove'][0]['result'] != 'ok':
+            return None, o
+        tag, els = _proof_elems(o['prove'][0])
+        d1 = els[:x]
+        if len(set(d1)) < len(d1):
+            bad.append({'d1': [e.hex() for e in d1]})
+    return (len(bad) == 2), bad[:1]
+
+
+def nonce_shared_across_runs(f):
+    """C13/C14: two prover runs (same witness and statement, different external randomness, or a failed external RNG and different
+    witness/context/statement) share the blinding of A or a whole prover message"""
+    c = f.detail.get('replay_cfg') or f.cfg
+    bad = []
+    for seed in (1, 2):
+        o = run_replay(dict(c, prove_only=True), seed)
+        if 'crash' in o or any(p['result'] != 'ok' for p in o['prove']) or len(o['prove']) < 2:
+            return None, o
+        a, b = o['prove'][0], o['prove'][1]
+        same = []
+        if a.get('a_blind') == b.get('a_blind'):
+            same.append('blinding part of A (alpha * g)')
+        ta, ea = _proof_elems(a)
+        tb, eb = _proof_elems(b)
+        x = ta
+        for i, (p, q) in enumerate(zip(ea, eb)):
+            if p == q and i >= x and i not in (x + 3, x + 4):
+                same.append('proof point element %d' % i)
+        if same:
+            bad.append(same)
+    return (len(bad) == 2), bad[:1]
+
+
+def seed_nonce_vector(f):
+    return None, 'seed-derived nonce layout: replayed by the recorded vectors of C19'
 
 
 def relation_disagrees(f):
